@@ -319,7 +319,7 @@ func init() {
 		Required: func(tier string) []string {
 			// generic in the grammar: nothing about which node kinds it uses
 			return []string{"rules_compared", "nodes_compared", "actions_bound", "actions_executed_against_grammar", "action_argument_pairs_executed",
-				"e2e_inputs", "e2e_accepted", "e2e_rejected"}
+				"e2e_inputs", "e2e_accepted", "e2e_rejected", "e2e_big_inputs"}
 		},
 		Post: func(a *mon.Agg) {
 			c20CoverSummary(a)
